@@ -353,6 +353,16 @@ GridRefinementAct ==
      \/ (PairMode /\ phase' # phase /\ currT' = 0 /\ gi' = 0)
 GridRefinement == [][GridRefinementAct]_vars
 
+(* ---- refinement of LoopAdaptive.tla (C14; invariant, MinStep and the termination measure are proved by TLAPS
+   for ALL T, dt, dt_min) under  t <- currT, s <- the step size of the trial just decided (tr.s), s' <- step:
+   every decision of this machine is an Accept or a Reject of LoopAdaptive.  In the model "below one tick" is
+   written 0 and clamped like any other proposal.                                                         *)
+AdaptiveRefinementAct ==
+  (Mode = "adaptive" /\ Bug = "none" /\ pc = "decide" /\ pc' = "loop") =>
+     \/ (tr.a < T /\ currT' = Min(tr.a + tr.s, T) /\ step' = step /\ step >= cfg.mn)                    \* Accept
+     \/ (tr.a < T /\ tr.s > cfg.mn /\ currT' = currT /\ step' = step /\ step < tr.s /\ step >= cfg.mn)   \* Reject
+AdaptiveRefinement == [][AdaptiveRefinementAct]_vars
+
 (* ---- C14 ---- *)
 Contiguous(s) == \A i \in 1..Len(s) :
                     /\ s[i][1] < s[i][2]
